@@ -19,7 +19,12 @@ AUXD = dict(AUX)
 MORE_LEAVES = [('ref', 'K'), ('ref', 'Z'), ('ref', 'W'),
                ('where', ('re', '[ab]'), ('py', "lambda x: x == 'a'")),
                ('re', '(?!b)a*'), ('re', '$'),
-               ('re', 'a')]       # (the same pattern text as the case-insensitive literal "a"i)
+               ('re', 'a'),       # (the same pattern text as the case-insensitive literal "a"i)
+               # a separated list whose separator can half-match, with and without trailer; a counted repetition of an
+               # element that may match nothing
+               ('sep', ('str', 'a'), ('right', ('opt', ('str', 'b')), ('str', 'A')), True, True, True, False),
+               ('sep', ('str', 'a'), ('right', ('opt', ('str', 'b')), ('str', 'A')), True, False, True, False),
+               ('rep', ('opt', ('str', 'a')), 2, 3)]
 EXTRA_STARTS = [
     ('rule', None, ('ref', 'K')), ('rule', None, ('ref', 'Z')), ('rule', None, ('ref', 'W')),
     ('rule', None, ('star', ('ref', 'K'))), ('rule', None, ('seq', ('expect', ('ref', 'K')), ('ref', 'K'))),
